@@ -145,29 +145,30 @@ theorem encodeHeader_ok (bkey : Bytes) (p : Part) (hw : Spec.WFpart bkey p) :
   encodeHeader_headerOK bkey p hw
 
 /-- **multipart_roundtrip_parts**: for well-formed parts `ps` (see `Spec.WFparts`), fields
-within the field limit, a boundary key without CR, and *any* chunking of `Spec.encode bkey ps`:
+within the field limit, a boundary key without CR, and *any* chunking of `Spec.encodeW wfn bkey ps` (`wfn p`: an empty file name of part `p` is written
+as `filename=""`, as browsers do for a file input left empty, or omitted; empty names are `name=""`):
 the request is accepted and hands over exactly `ps` — names, file names, MIME types,
 contents byte for byte, in order. -/
-theorem multipart_roundtrip_parts (cfg : Cfg) (bkey : Bytes) (hb : cfg.boundary = Spec.delimiter bkey)
+theorem multipart_roundtrip_parts (wfn : Part → Bool) (cfg : Cfg) (bkey : Bytes) (hb : cfg.boundary = Spec.delimiter bkey)
     (hk : Spec.WFbkey bkey) (hdisk : cfg.diskOk = true) (ps : List Part) (hwf : Spec.WFparts bkey ps)
     (hsz : ∀ p ∈ ps, p.mime = [] → p.data.length ≤ cfg.fieldLimit) (cs : List Bytes)
-    (hcs : Spec.IsChunking cs (Spec.encode bkey ps)) :
+    (hcs : Spec.IsChunking cs (Spec.encodeW wfn bkey ps)) :
     run cfg cs.flatten.length {} cs = .ready ps := by
-  let items : List Item := ps.map fun p => { hdr := Spec.encodeHeader p, info := metaOf p, data := p.data }
+  let items : List Item := ps.map fun p => { hdr := Spec.encodeHeaderW (wfn p) p, info := metaOf p, data := p.data }
   have hparts : items.map Item.part = ps := by
     simp only [items, List.map_map]
     conv => rhs; rw [← List.map_id ps]
     apply List.map_congr_left
     intro p _
     rfl
-  have henc : Spec.encodeWith bkey (items.map fun it => (it.hdr, it.data)) = Spec.encode bkey ps := by
-    simp only [items, List.map_map, Spec.encode]
+  have henc : Spec.encodeWith bkey (items.map fun it => (it.hdr, it.data)) = Spec.encodeW wfn bkey ps := by
+    simp only [items, List.map_map, Spec.encodeW]
     rfl
   have := multipart_roundtrip cfg bkey hb hk.2 hdisk items (by
     intro it hit
     simp only [items, List.mem_map] at hit
     obtain ⟨p, hp, rfl⟩ := hit
-    exact ⟨encodeHeader_headerOK bkey p (hwf p hp), (hwf p hp).2.2, hsz p hp⟩) cs (by rw [henc]; exact hcs)
+    exact ⟨encodeHeaderW_headerOK (wfn p) bkey p (hwf p hp), (hwf p hp).2.2, hsz p hp⟩) cs (by rw [henc]; exact hcs)
   rw [this, hparts]
 
 /-- non-vacuity: a field whose name contains a quote and a backslash and whose content is a
@@ -204,16 +205,16 @@ for `Content-Type: multipart/form-data; boundary=<token>`, well-formed parts, a 
 length equal to the body's and within the multipart limit, fields within the field limit,
 and *any* chunking of `Spec.encode`, the application is handed exactly the encoded fields
 (as the `post()` multimap) and files (in order), with status 0. -/
-theorem request_roundtrip (lim : Limits) (bkey : Bytes) (hne : bkey ≠ []) (htok : ∀ c ∈ bkey, tokenChar c = true)
+theorem request_roundtrip (wfn : Part → Bool) (lim : Limits) (bkey : Bytes) (hne : bkey ≠ []) (htok : ∀ c ∈ bkey, tokenChar c = true)
     (hdisk : lim.diskOk = true) (ps : List Part) (hwf : Spec.WFparts bkey ps)
     (hsz : ∀ p ∈ ps, p.mime = [] → p.data.length ≤ lim.contentLimit) (cs : List Bytes)
-    (hcs : Spec.IsChunking cs (Spec.encode bkey ps)) (hlim : cs.flatten.length ≤ lim.multipartLimit) :
+    (hcs : Spec.IsChunking cs (Spec.encodeW wfn bkey ps)) (hlim : cs.flatten.length ≤ lim.multipartLimit) :
     request lim (litMultipartCT ++ bkey) cs.flatten.length cs = .handled (deliver ps).1 (deliver ps).2 := by
   obtain ⟨hmt, hbd⟩ := boundary_of_content_type bkey hne htok
   have hcr : (13 : UInt8) ∉ bkey := fun h => (token_not_blank 13 (htok 13 h)).2 rfl
   have hpos : cs.flatten.length ≠ 0 := by
     rw [hcs]
-    cases ps <;> simp [Spec.encode, Spec.encodeWith, Spec.dashes, Spec.crlf]
+    cases ps <;> simp [Spec.encodeW, Spec.encodeWith, Spec.dashes, Spec.crlf]
   have hgt : ¬ cs.flatten.length > lim.multipartLimit := by omega
   have hstart : start lim (litMultipartCT ++ bkey) cs.flatten.length =
       .ok (.multipart { boundary := Spec.delimiter bkey, memLimit := lim.memLimit, diskOk := lim.diskOk, fieldLimit := lim.contentLimit }) := by
@@ -223,7 +224,17 @@ theorem request_roundtrip (lim : Limits) (bkey : Bytes) (hne : bkey ≠ []) (hto
   unfold request
   rw [hstart]
   simp only
-  rw [multipart_roundtrip_parts _ bkey rfl ⟨hne, hcr⟩ hdisk ps hwf hsz cs hcs]
+  rw [multipart_roundtrip_parts wfn _ bkey rfl ⟨hne, hcr⟩ hdisk ps hwf hsz cs hcs]
+
+/-- non-vacuity for empty parameter values: a part with the empty name and an empty file name written
+as `filename=""` (a file input left empty) is well formed, its header block is accepted and read
+back as empty strings -/
+example : Spec.WFpart [120] { name := [], filename := [], mime := [], data := [] }
+    ∧ headerOK (Spec.encodeHeaderW true { name := [], filename := [], mime := [], data := [] }) {} = true := by
+  have hw : Spec.WFpart [120] { name := [], filename := [], mime := [], data := [] } := by
+    refine ⟨by simp, Or.inl rfl, ?_⟩
+    intro h; have := h.length_le; simp [Spec.delimiter, Spec.crlf, Spec.dashes] at this
+  exact ⟨hw, encodeHeaderW_headerOK true [120] _ hw⟩
 
 /-! ## limits and refusals -/
 
@@ -509,24 +520,24 @@ callbacks a `multipart_filter` receives, leaving out the `on_upload_progress` re
 number and sizes depend on where the chunks end, by design), are exactly: for each part in
 order `on_new_file` (name known, size 0) and `on_data_ready` (its full size), and finally
 `on_end_of_content` — every part, hence every content byte, is handed over exactly once. -/
-theorem multipart_filter_sees_each_part_once (cfg : Cfg) (bkey : Bytes) (hb : cfg.boundary = Spec.delimiter bkey)
+theorem multipart_filter_sees_each_part_once (wfn : Part → Bool) (cfg : Cfg) (bkey : Bytes) (hb : cfg.boundary = Spec.delimiter bkey)
     (hk : Spec.WFbkey bkey) (hdisk : cfg.diskOk = true) (ps : List Part) (hwf : Spec.WFparts bkey ps)
     (hsz : ∀ p ∈ ps, p.mime = [] → p.data.length ≤ cfg.fieldLimit) (cs : List Bytes)
-    (hcs : Spec.IsChunking cs (Spec.encode bkey ps)) :
+    (hcs : Spec.IsChunking cs (Spec.encodeW wfn bkey ps)) :
     noProg (evRun cfg cs.flatten.length {} cs) =
       ps.flatMap (fun p => [Ev.newFile p.name 0, Ev.dataReady p.data.length]) ++ [Ev.endOfContent] := by
   have hb' : cfg.boundary = 13 :: 10 :: 45 :: 45 :: bkey := by rw [hb]; rfl
   have g : Guard cfg.boundary := ⟨bkey, hb', hk.2⟩
   have h0 : ({} : RS).read = 0 := rfl
-  let items : List Item := ps.map fun p => { hdr := Spec.encodeHeader p, info := metaOf p, data := p.data }
-  have henc : Spec.encodeWith bkey (items.map fun it => (it.hdr, it.data)) = Spec.encode bkey ps := by
-    simp only [items, List.map_map, Spec.encode]
+  let items : List Item := ps.map fun p => { hdr := Spec.encodeHeaderW (wfn p) p, info := metaOf p, data := p.data }
+  have henc : Spec.encodeWith bkey (items.map fun it => (it.hdr, it.data)) = Spec.encodeW wfn bkey ps := by
+    simp only [items, List.map_map, Spec.encodeW]
     rfl
   have hok : ∀ it ∈ items, ItemOK cfg it := by
     intro it hit
     simp only [items, List.mem_map] at hit
     obtain ⟨p, hp, rfl⟩ := hit
-    refine ⟨encodeHeader_headerOK bkey p (hwf p hp), noEarly_of_not_infix g (by rw [hb]; exact (hwf p hp).2.2), ?_⟩
+    refine ⟨encodeHeaderW_headerOK (wfn p) bkey p (hwf p hp), noEarly_of_not_infix g (by rw [hb]; exact (hwf p hp).2.2), ?_⟩
     unfold sizeOk
     by_cases hm : p.mime = []
     · have := hsz p hp hm; simp [metaOf, hm]; omega
@@ -739,15 +750,15 @@ theorem content_type_boundary_roundtrip (bkey : Bytes) (hne : bkey ≠ []) :
   ⟨fun htok => boundary_of_content_type bkey hne htok, boundary_of_content_type_quoted bkey hne⟩
 
 /-- `request_roundtrip` with the boundary sent as a quoted-string (any bytes but CR) -/
-theorem request_roundtrip_quoted_boundary (lim : Limits) (bkey : Bytes) (hk : Spec.WFbkey bkey)
+theorem request_roundtrip_quoted_boundary (wfn : Part → Bool) (lim : Limits) (bkey : Bytes) (hk : Spec.WFbkey bkey)
     (hdisk : lim.diskOk = true) (ps : List Part) (hwf : Spec.WFparts bkey ps)
     (hsz : ∀ p ∈ ps, p.mime = [] → p.data.length ≤ lim.contentLimit) (cs : List Bytes)
-    (hcs : Spec.IsChunking cs (Spec.encode bkey ps)) (hlim : cs.flatten.length ≤ lim.multipartLimit) :
+    (hcs : Spec.IsChunking cs (Spec.encodeW wfn bkey ps)) (hlim : cs.flatten.length ≤ lim.multipartLimit) :
     request lim (litMultipartCT ++ Spec.quote bkey) cs.flatten.length cs = .handled (deliver ps).1 (deliver ps).2 := by
   obtain ⟨hmt, hbd⟩ := boundary_of_content_type_quoted bkey hk.1
   have hpos : cs.flatten.length ≠ 0 := by
     rw [hcs]
-    cases ps <;> simp [Spec.encode, Spec.encodeWith, Spec.dashes, Spec.crlf]
+    cases ps <;> simp [Spec.encodeW, Spec.encodeWith, Spec.dashes, Spec.crlf]
   have hgt : ¬ cs.flatten.length > lim.multipartLimit := by omega
   have hstart : start lim (litMultipartCT ++ Spec.quote bkey) cs.flatten.length =
       .ok (.multipart { boundary := Spec.delimiter bkey, memLimit := lim.memLimit, diskOk := lim.diskOk, fieldLimit := lim.contentLimit }) := by
@@ -757,7 +768,7 @@ theorem request_roundtrip_quoted_boundary (lim : Limits) (bkey : Bytes) (hk : Sp
   unfold request
   rw [hstart]
   simp only
-  rw [multipart_roundtrip_parts _ bkey rfl hk hdisk ps hwf hsz cs hcs]
+  rw [multipart_roundtrip_parts wfn _ bkey rfl hk hdisk ps hwf hsz cs hcs]
 
 example : unquote (Spec.quote [97, 34, 92, 92] ++ [59]) = some ([97, 34, 92, 92], [59]) := unquote_quote_roundtrip _ _
 
